@@ -317,7 +317,7 @@ def r6_project_coordinates(ctx):
                   bad="**kwargs (inverse=True) are not passed to the projection", fn=qn)
         if more:
             v = p.value
-            rest = ("call", ("glob", "builtins.tuple"), (("sub", co, ("slice", const(2), NONE, NONE)),), (), 0)
+            rest = ("tuple", (("star", ("sub", co, ("slice", const(2), NONE, NONE))),))
             ok = v[0] == "binop" and v[1] == "+" and canon(v[2]) == canon(c) and canon(v[3]) == canon(rest)
             ctx.check("R6", "%s|extra-coordinates-appended" % qn, True if ok else None, "the remaining coordinates are appended unchanged and in order", fn=qn)
         else:
